@@ -55,3 +55,30 @@ Theorem C05_decision_refines_fig33 : forall own ebest erbest st,
                      (option_map best_cmp_ds ebest) (option_map best_cmp_ds erbest)
                      (same_best ebest erbest) (is_listening st).
 Proof. exact decision_refines_fig33. Qed.
+
+(** The selection returns the candidate that wins every pairwise comparison of
+    Figures 34/35 whenever there is one - candidate lists of any length, no
+    transitivity or grandmaster-consistency assumption. *)
+From SV Require Import Port.CondorcetC05.
+Theorem C05_condorcet_winner_selected : forall l e,
+  In e l -> (forall x, In x l -> x <> e -> beats e x) -> find_best l = Ok (Some e).
+Proof. exact find_best_condorcet. Qed.
+
+(** C05_main: for every valid set-up and EVERY valid event list the COMPLETE
+    oracle ok_C05 accepts the model's own trace: at every BMCA run at which
+    every foreign master a port has heard announced at least twice since the
+    previous run (and nothing outside the oracle's bookkeeping happened: an
+    Announce with the clock's own identity, a sequence id that moved backwards
+    or by 2^15 in total, more than eight masters on a port), the state of every
+    port is the one Figure 33 prescribes for D0, Erbest and Ebest computed from
+    the figure-level comparison of the newest Announce of every master, and
+    parentDS / currentDS / timePropertiesDS are those of decision S1, of M1/M2,
+    or unchanged.  The proof couples the foreign-master list of every port with
+    the oracle's candidates (MainC05.cp5), shows that Erbest and Ebest are the
+    pairwise winners (C05_condorcet_winner_selected), and carries the coupling
+    through every handler, every BMCA run (judged or not) and every history. *)
+From SV Require Import Port.MainC05.
+Theorem C05_main : forall s es rel,
+  setup_valid s -> Forall event_valid es ->
+  exists i o, init s = Ok (i, o) /\ ok_C05 (mkCase s es rel (Some o) (run i es)) = true.
+Proof. exact ok_C05_model. Qed.
